@@ -14,9 +14,11 @@ package c02
 
 import (
 	"bytes"
+	"context"
 	"encoding/json"
 	"errors"
 	"fmt"
+	"io"
 	"sort"
 	"strings"
 	"sync"
@@ -539,6 +541,25 @@ type Case struct {
 	Chunk   int    `json:"chunk,omitempty"`  // source chunking: 0 = fill the buffer
 	FailAt  int    `json:"fail_at"`          // Read index at which the source starts failing; -1 = never
 	FailDat bool   `json:"fail_with_data,omitempty"`
+	FailErr string `json:"fail_err,omitempty"` // name of the error value of the fault ("" = private sentinel)
+}
+
+// eofLike is an error that is not io.EOF but reports Is(io.EOF).
+type eofLike struct{}
+
+func (eofLike) Error() string        { return "connection closed (EOF)" }
+func (eofLike) Is(target error) bool { return target == io.EOF }
+
+var faultErrNames = []string{"", "unexpected-eof", "wrapped-unexpected-eof", "closed-pipe", "context-canceled", "short-buffer", "is-eof"}
+
+var faultErrs = map[string]error{
+	"":                       nil, // encenv.ErrInjected
+	"unexpected-eof":         io.ErrUnexpectedEOF,
+	"wrapped-unexpected-eof": fmt.Errorf("reading body: %w", io.ErrUnexpectedEOF),
+	"closed-pipe":            io.ErrClosedPipe,
+	"context-canceled":       context.Canceled,
+	"short-buffer":           io.ErrShortBuffer,
+	"is-eof":                 eofLike{},
 }
 
 func (c *Case) String() string { b, _ := json.Marshal(c); return string(b) }
@@ -569,6 +590,11 @@ type verdict struct {
 // judge is the oracle.
 func judge(c *Case, orig *built, mutated []byte, expect, out []byte, err error) verdict {
 	isPrefix := len(out) <= len(expect) && bytes.Equal(out, expect[:len(out)])
+	// An error value for which errors.Is(err, io.EOF) holds is, by the
+	// contract of package errors, io.EOF: the source ended there. It is judged
+	// like a truncation at that point (prefix rule, clean EOF only after the
+	// whole plaintext), not like a failure of the source.
+	fault := c.FailAt >= 0 && !errors.Is(faultErrs[c.FailErr], io.EOF)
 	var class, what string
 	switch {
 	case errors.Is(err, encenv.ErrHang):
@@ -581,7 +607,7 @@ func judge(c *Case, orig *built, mutated []byte, expect, out []byte, err error) 
 		class, what = "bytes-released-that-are-no-prefix-of-the-plaintext", fmt.Sprintf("%d bytes were released, they depart from the original plaintext (%d bytes) at offset %d; terminal error: %v", len(out), len(expect), i, err)
 	case err == nil && len(out) != len(expect):
 		class, what = "shortened-message-ends-in-clean-EOF", fmt.Sprintf("the stream ended with io.EOF after %d of %d plaintext bytes", len(out), len(expect))
-	case c.FailAt >= 0 && err == nil:
+	case fault && err == nil:
 		class, what = "source-fault-swallowed", "the source reader failed but the stream ended with io.EOF"
 	default:
 		return verdict{trivial: bytes.Equal(mutated, orig.doc) && c.Unwrap == "" && c.FailAt < 0, accepted: err == nil}
@@ -606,6 +632,9 @@ func judge(c *Case, orig *built, mutated []byte, expect, out []byte, err error) 
 	}
 	if c.FailAt >= 0 {
 		family = "source-fault"
+		if !fault {
+			family = "source-ends-early"
+		}
 	}
 	key := class + ":" + family
 	l := layoutOf(mutated)
@@ -614,7 +643,10 @@ func judge(c *Case, orig *built, mutated []byte, expect, out []byte, err error) 
 		key = "forged-zero-key-document-accepted-when-unwrap-fails"
 	case forged == 0 && class != "stream-does-not-terminate":
 		key = "forged-zero-key-document-accepted-with-stale-MAC"
-	case class == "shortened-message-ends-in-clean-EOF" && len(out) == 0 && l.hdr == len(mutated) && c.FailAt < 0:
+	case class == "shortened-message-ends-in-clean-EOF" && len(out) == 0 && (l.hdr == len(mutated) && c.FailAt < 0 || c.FailAt >= 0 && !fault):
+		// (a source that ends early can yield an empty output with a clean EOF
+		// only by ending exactly after the header: anything longer is a short
+		// last segment and must authenticate)
 		key = "header-only-document-accepted-as-empty-message"
 	}
 	return verdict{class: class, key: key, msg: what}
@@ -623,7 +655,7 @@ func judge(c *Case, orig *built, mutated []byte, expect, out []byte, err error) 
 // decryptWithKit runs kit's Decrypt over the bytes and reads the stream out.
 func decryptWithKit(c *Case, d []byte, wfk []byte) ([]byte, error, int) {
 	src := encenv.NewSource(d)
-	src.Chunk, src.FailAt, src.FailDat = c.Chunk, c.FailAt, c.FailDat
+	src.Chunk, src.FailAt, src.FailDat, src.FailErr = c.Chunk, c.FailAt, c.FailDat, faultErrs[c.FailErr]
 	stream, err := encenv.KitDecrypt(src, v1.DecryptOptions{UnwrapKeyFn: unwrapFn(c.Unwrap, wfk)})
 	if err != nil {
 		return nil, err, src.Calls
@@ -861,74 +893,116 @@ func run(r *enumx.Run, replay *enumx.ReplayCase) {
 	r.Sample(&Case{Cipher: 1, Len: 65537, Muts: []Mut{{Op: "segswap", A: 0, B: 1}, {Op: "trunc", A: 65700, Where: "inside-segment"}}, FailAt: -1})
 
 	// ---- F: source faults
+	//
+	// chunkings: fill the buffer, 1 byte, and frames of headerLength+k bytes
+	// (k = -1..2) so that Reads end just before / at / after the header end.
+	// error values: a private sentinel and six values a transport may return.
+	// Read indexes: all of them, except that under 1-byte chunking a fault at
+	// index i costs i Reads (quadratic): for the large documents quick takes
+	// the indexes within +-17 bytes of every header-line, tag and segment
+	// boundary; thorough takes, for the sentinel, every index up to the
+	// one-full-segment document and the neighbourhoods plus every 16th index
+	// of the longer ones. The six other error values always take the
+	// neighbourhoods on the large documents; frames on large documents take
+	// the Reads that touch a boundary neighbourhood in quick and all in thorough.
 	var faultCount int64
 	items = nil
 	for cph := 1; cph <= 2; cph++ {
 		for _, n := range docLens {
 			b := getDoc(0, cph, n)
 			l := layoutOf(b.doc)
-			for _, chunk := range []int{0, 1} {
-				_, _, reads := decryptWithKit(&Case{Cipher: cph, Len: n, Chunk: chunk, FailAt: -1}, b.doc, b.wfk)
-				// Under 1-byte chunking a fault at Read index i costs i Reads, so
-				// the complete enumeration is quadratic in the document size:
-				// quick takes, for the large documents, the indexes within
-				// +-17 of every boundary; thorough takes every index for the
-				// documents up to one full segment and, for the two- and
-				// three-segment documents, the boundary neighbourhoods plus
-				// every 16th index.
-				var idx []int
-				stride := 0
-				switch {
-				case chunk == 1 && n > 1000 && !r.Thorough():
-					stride = -1
-				case chunk == 1 && n > 65536:
-					stride = 16
+			bounds := append([]int{0}, l.lineEnds...)
+			for _, s := range l.segs {
+				bounds = append(bounds, s[1]-encv1ref.TagSize, s[1])
+			}
+			large := n > 1000
+			for _, chunk := range []int{0, 1, l.hdr - 1, l.hdr, l.hdr + 1, l.hdr + 2} {
+				out, err, reads := decryptWithKit(&Case{Cipher: cph, Len: n, Chunk: chunk, FailAt: -1}, b.doc, b.wfk)
+				r.Count(1, 1)
+				if err != nil || !bytes.Equal(out, b.p) {
+					c := &Case{Cipher: cph, Len: n, Chunk: chunk, FailAt: -1}
+					r.Violation("machinery:valid-document-rejected", fmt.Sprintf("kit does not decrypt the unmodified reference document: %v (%d of %d bytes)\ncase: %s", err, len(out), len(b.p), c), c)
 				}
-				if stride != 0 {
+				near := func() []int {
 					seen := map[int]bool{}
-					bs := append([]int{0}, l.lineEnds...)
-					for _, s := range l.segs {
-						bs = append(bs, s[1]-encv1ref.TagSize, s[1])
-					}
-					for _, bnd := range bs {
-						for i := bnd - 17; i <= bnd+17; i++ {
-							if i >= 0 && i < reads && !seen[i] {
-								seen[i] = true
-								idx = append(idx, i)
-							}
-						}
-					}
-					for i := 0; stride > 0 && i < reads; i += stride {
-						if !seen[i] {
+					var idx []int
+					add := func(i int) {
+						if i >= 0 && i < reads && !seen[i] {
 							seen[i] = true
 							idx = append(idx, i)
 						}
 					}
-					sort.Ints(idx)
-				} else {
-					for i := 0; i < reads; i++ {
-						idx = append(idx, i)
-					}
-				}
-				faultCount += int64(2 * len(idx))
-				const batch = 256
-				for lo := 0; lo < len(idx); lo += batch {
-					hi := lo + batch
-					if hi > len(idx) {
-						hi = len(idx)
-					}
-					cph, n, chunk, part := cph, n, chunk, idx[lo:hi]
-					items = append(items, func() {
-						for _, i := range part {
-							if r.Expired() {
-								r.Incomplete("source faults: a batch was cut by the budget")
-								return
+					for _, bnd := range bounds {
+						if chunk == 0 {
+							break
+						}
+						if chunk == 1 {
+							for i := bnd - 17; i <= bnd+17; i++ {
+								add(i)
 							}
-							for _, dat := range []bool{false, true} {
-								check(&Case{Cipher: cph, Len: n, Chunk: chunk, FailAt: i, FailDat: dat}, b, b.doc)
+						} else {
+							for i := (bnd-17)/chunk - 1; i <= (bnd+17)/chunk+1; i++ {
+								add(i)
 							}
 						}
-					})
+					}
+					add(reads - 2)
+					add(reads - 1)
+					return idx
+				}
+				all := func(stride int) []int {
+					idx := near()
+					if stride == 0 {
+						return idx
+					}
+					seen := map[int]bool{}
+					for _, i := range idx {
+						seen[i] = true
+					}
+					for i := 0; i < reads; i += stride {
+						if !seen[i] {
+							idx = append(idx, i)
+						}
+					}
+					return idx
+				}
+				for _, en := range faultErrNames {
+					var idx []int
+					switch {
+					case !large || chunk == 0:
+						idx = all(1)
+					case chunk == 1 && en == "" && r.Thorough() && n <= 65536:
+						idx = all(1)
+					case chunk == 1 && en == "" && r.Thorough():
+						idx = all(16)
+					case chunk == 1:
+						idx = near()
+					case r.Thorough():
+						idx = all(1)
+					default:
+						idx = near()
+					}
+					sort.Ints(idx)
+					faultCount += int64(2 * len(idx))
+					const batch = 256
+					for lo := 0; lo < len(idx); lo += batch {
+						hi := lo + batch
+						if hi > len(idx) {
+							hi = len(idx)
+						}
+						cph, n, chunk, en, part := cph, n, chunk, en, idx[lo:hi]
+						items = append(items, func() {
+							for _, i := range part {
+								if r.Expired() {
+									r.Incomplete("source faults: a batch was cut by the budget")
+									return
+								}
+								for _, dat := range []bool{false, true} {
+									check(&Case{Cipher: cph, Len: n, Chunk: chunk, FailAt: i, FailDat: dat, FailErr: en}, b, b.doc)
+								}
+							}
+						})
+					}
 				}
 			}
 		}
@@ -938,9 +1012,10 @@ func run(r *enumx.Run, replay *enumx.ReplayCase) {
 		items[i], items[j] = items[j], items[i]
 	}
 	runItems("source-faults", items, func() string {
-		return fmt.Sprintf("source faults: %d faulty runs (Read indexes as stated in the rule x {error alone, data+error}) over 12 documents x {default, 1-byte} chunking", faultCount)
+		return fmt.Sprintf("source faults: %d faulty runs (Read indexes as stated in the rule x {error alone, data+error} x 7 error values) over 12 documents x {fill, 1-byte, header+k frames (k=-1..2)} chunking", faultCount)
 	})
 	r.Sample(&Case{Cipher: 1, Len: 65537, Chunk: 1, FailAt: 65750, FailDat: true})
+	r.Sample(&Case{Cipher: 2, Len: 65536, Chunk: 179, FailAt: 1, FailErr: "wrapped-unexpected-eof"})
 
 	r.Set("cases_leaving_the_bytes_unchanged", identical)
 	r.Set("changed_documents_that_still_yield_the_whole_plaintext", intact)
